@@ -24,8 +24,8 @@ Definition redo_ok (s : store) (o : op) : bool :=
                  | BFrom src => negb (name_eqb src (get_existing (readable_names s) (cr_name q)))
                  | BFiles _ _ _ _ => false
                  end
-  | OPull _ (Some v) => (length (sv_contents v) =? length (all_layers (sv_manifest v)))%nat && forallb is_some (sv_contents v)
-  | OPull _ None => true
+  | OPull _ (Some v) _ => (length (sv_contents v) =? length (all_layers (sv_manifest v)))%nat && forallb is_some (sv_contents v)
+  | OPull _ None _ => true
   | OBlob _ _ | OStartup => false
   end.
 
@@ -127,7 +127,7 @@ Section Redo.
   (** every operation's effect list has the shape, provided no manifest is unreadable at the start *)
   Lemma effects_shaped s o : has_unreadable s = false -> shaped (effects size_of s o).
   Proof.
-    intros Hu. unfold effects. destruct o as [d c|q|a b|n|n sv|]; cbn [op_run].
+    intros Hu. unfold effects. destruct o as [d c|q|a b|n|n sv ord|]; cbn [op_run].
     - unfold op_blob. destruct (bget (dhex d) s); [apply (shaped_blob_only s), Ext_refl|].
       assert (H := new_layer_ext size_of (init s) 0 c). destruct (new_layer size_of (init s) 0 c). cbn in *. apply (shaped_blob_only s), H.
     - unfold op_create, op_create_gen. assert (Hb := create_build_ext size_of (layer_from_layer size_of) false s q).
@@ -475,13 +475,13 @@ Section Redo.
     eexists; reflexivity.
   Qed.
 
-  Lemma exec_pull_mans s n v :
+  Lemma exec_pull_mans s n v ord :
     Inv s -> served_ok size_of v = true ->
     (length (sv_contents v) = length (all_layers (sv_manifest v))) -> forallb is_some (sv_contents v) = true ->
-    mans (exec s (OPull n (Some v))) =
+    mans (exec s (OPull n (Some v) ord)) =
       aset name_eqb (get_existing (readable_names s) n) (Readable (sv_manifest v))
         (aset name_eqb (get_existing (readable_names s) n) Unreadable (mans s)) /\
-    snd (op_run size_of s (OPull n (Some v))) = ROk.
+    snd (op_run size_of s (OPull n (Some v) ord)) = ROk.
   Proof.
     intros HI Hok Hl Hs. unfold Ops.exec. cbn [op_run]. unfold op_pull, op_pull_gen.
     set (g := get_existing (readable_names s) n).
@@ -499,23 +499,23 @@ Section Redo.
     rewrite (Ext_write_mans r1 _ _ _ (delete_unused_ext _ _)). rewrite (Ext_mans _ _ Hext). reflexivity.
   Qed.
 
-  Lemma redo_pull s n v k :
-    Inv s -> op_guard s (OPull n (Some v)) = true -> redo_ok s (OPull n (Some v)) = true ->
-    has_unreadable s = false -> has_unreadable (crash s (OPull n (Some v)) k) = false ->
-    let s1 := recover (crash s (OPull n (Some v)) k) in
-    same_mans (exec s1 (OPull n (Some v))) (exec s (OPull n (Some v))) /\
-    snd (op_run size_of s1 (OPull n (Some v))) = snd (op_run size_of s (OPull n (Some v))).
+  Lemma redo_pull s n v ord k :
+    Inv s -> op_guard s (OPull n (Some v) ord) = true -> redo_ok s (OPull n (Some v) ord) = true ->
+    has_unreadable s = false -> has_unreadable (crash s (OPull n (Some v) ord) k) = false ->
+    let s1 := recover (crash s (OPull n (Some v) ord) k) in
+    same_mans (exec s1 (OPull n (Some v) ord)) (exec s (OPull n (Some v) ord)) /\
+    snd (op_run size_of s1 (OPull n (Some v) ord)) = snd (op_run size_of s (OPull n (Some v) ord)).
   Proof.
     intros HI Hg Hr Hu Hc s1. assert (Hsv : served_ok size_of v = true) by exact Hg.
     cbn [redo_ok] in Hr. apply andb_true_iff in Hr as [Hl Hs]. apply Nat.eqb_eq in Hl.
     assert (HI1 : Inv s1) by (apply recover_inv, crash_inv; assumption).
-    destruct (exec_pull_mans s n v HI Hsv Hl Hs) as [E0 R0]. destruct (exec_pull_mans s1 n v HI1 Hsv Hl Hs) as [E1 R1].
+    destruct (exec_pull_mans s n v ord HI Hsv Hl Hs) as [E0 R0]. destruct (exec_pull_mans s1 n v ord HI1 Hsv Hl Hs) as [E1 R1].
     split; [|congruence]. set (tgt := get_existing (readable_names s) n) in *.
     assert (Hframe : forall x, x <> tgt -> mget x s1 = mget x s).
-    { intros x Hx. destruct (prefix_frame size_of s (OPull n (Some v)) k x HI Hg) as [P1 _]; [cbn; fold tgt; congruence|].
-      destruct (recover_frame size_of (crash s (OPull n (Some v)) k) x (crash_inv size_of s _ k HI Hg)) as [Q1 _]. unfold s1. congruence. }
+    { intros x Hx. destruct (prefix_frame size_of s (OPull n (Some v) ord) k x HI Hg) as [P1 _]; [cbn; fold tgt; congruence|].
+      destruct (recover_frame size_of (crash s (OPull n (Some v) ord) k) x (crash_inv size_of s _ k HI Hg)) as [Q1 _]. unfold s1. congruence. }
     assert (Htgt : get_existing (readable_names s1) n = tgt).
-    { destruct (clean_crash_mans s (OPull n (Some v)) k HI Hg Hu Hc) as [Hm|Hm]; fold s1 in Hm.
+    { destruct (clean_crash_mans s (OPull n (Some v) ord) k HI Hg Hu Hc) as [Hm|Hm]; fold s1 in Hm.
       - unfold tgt. rewrite (readable_names_mans s s1 Hm). reflexivity.
       - apply (ge_stable s1 tgt (sv_manifest v) _ HI1); [|apply get_existing_eqfold].
         unfold listed. rewrite Hm, E0. apply (In_aset name_eqb name_eqb_spec). left; auto. }
@@ -535,7 +535,7 @@ Section Redo.
     intros HI Hg Hr Hu Hc s1.
     assert (HI1 : Inv s1) by (apply recover_inv, crash_inv; assumption).
     assert (HIe : Inv (exec s o)) by (apply exec_inv; assumption).
-    destruct o as [d c|q|a b|n|n [v|]|]; try discriminate.
+    destruct o as [d c|q|a b|n|n [v|] ord|]; try discriminate.
     - destruct (redo_create s q k HI Hg Hr Hu Hc) as [H1 [H2 H3]]. fold s1 in H1, H2, H3.
       split; [exact H1|]. split; [apply exec_inv; assumption|]. split; [exact HIe | left; exact H3].
     - destruct (redo_copy s a b k HI Hu Hc) as [H1 H3]. fold s1 in H1, H3.
@@ -543,7 +543,7 @@ Section Redo.
     - destruct (redo_delete s n k HI Hu Hc) as [H1 H3]. fold s1 in H1, H3.
       split; [exact H1|]. split; [apply exec_inv; [exact HI1 | reflexivity]|]. split; [exact HIe|].
       destruct H3 as [H3|[H3 H4]]; [left; exact H3 | right; split; [eexists; reflexivity | auto]].
-    - destruct (redo_pull s n v k HI Hg Hr Hu Hc) as [H1 H3]. fold s1 in H1, H3.
+    - destruct (redo_pull s n v ord k HI Hg Hr Hu Hc) as [H1 H3]. fold s1 in H1, H3.
       split; [exact H1|]. split; [apply exec_inv; [exact HI1 | exact Hg]|]. split; [exact HIe | left; exact H3].
     - (* no manifest served: nothing happens, twice *)
       split; [|split; [apply exec_inv; [exact HI1 | reflexivity] | split; [exact HIe | left; reflexivity]]].
